@@ -149,7 +149,7 @@ theorem pairwise_of_strictlyIncreasing : ∀ l : List Nat, strictlyIncreasing l 
     · exact Nat.lt_trans h.1 ((List.pairwise_cons.1 ih).1 x hx)
 
 /-- a sub-multiset of a list whose image under `f` is duplicate-free has a duplicate-free image -/
-theorem nodup_map_of_count_le {α β : Type} [DecidableEq α] (f : α → β) :
+theorem nodup_map_of_count_le {α β : Type} [BEq α] [LawfulBEq α] (f : α → β) :
     ∀ (A B : List α), (∀ x, A.count x ≤ B.count x) → (B.map f).Nodup → (A.map f).Nodup := by
   intro A
   induction A with
@@ -368,4 +368,293 @@ theorem quiescence_in_clause (hfresh : (reqIds T).Nodup) : clQuiesIn T := by
 
 end
 
+/-! ### panics -/
+
+theorem step_panic (s : St) (h : Hs) (hi : Inv s h) (o : Op) :
+    (step true s o).2.panic.isNone = true ∨ panicExcused h.seen o = true := by
+  cases o with
+  | send p =>
+    left
+    simp only [step]
+    split
+    · rfl
+    · rename_i hemp
+      have hlen : 0 < (s.connected p).length := by
+        cases hc : s.connected p with
+        | nil => simp [hc] at hemp
+        | cons x xs => simp
+      obtain ⟨r, hr⟩ := sendTo_some s.nextId (s.nextId % (s.connected p).length) (s.connected p)
+        (Nat.mod_lt _ hlen)
+      simp [hr]
+  | established p c => left; rfl
+  | closed p c => right; rfl
+  | dialFailure p c cond =>
+    left
+    simp only [step]
+    split
+    · rfl
+    · split <;> rfl
+  | hOut p c id k =>
+    left
+    simp only [step, if_true]
+    split <;> rfl
+  | hRequest p c id =>
+    simp only [step]
+    split
+    · left; rfl
+    · rename_i ins conns' hins
+      obtain ⟨_, _, _, hz⟩ := insertIn_spec c id _ _ hins
+      dsimp only at hz
+      split
+      · rename_i hpan
+        right
+        have hi0 : ins = false := by
+          cases hb : ins with
+          | true => simp [hb] at hpan
+          | false => rfl
+        simp only [panicExcused, decide_eq_true_eq]
+        exact hi.seen_ok p id (hz hi0)
+      · left; rfl
+  | hIn p c id k =>
+    left
+    simp only [step, if_true]
+    split
+    · rfl
+    · split <;> rfl
+
+theorem panics_run (np : Nat) : ∀ (ops : List Op) (s : St) (ids : List RId) (h : Hs), Inv s h →
+    panicsOk h.seen (runT true np s ids ops) = true := by
+  intro ops
+  induction ops with
+  | nil => intro s ids h _; rfl
+  | cons o os ih =>
+    intro s ids h hi
+    simp only [runT, panicsOk, Bool.and_eq_true, Bool.or_eq_true]
+    refine ⟨step_panic s h hi o, ?_⟩
+    have := ih _ (seenAfter ids o) _
+      (inv_step s h hi o (samplePo np (step true s o).1) (samplePi np (step true s o).1 (seenAfter ids o)))
+    simpa [Hs.push] using this
+
+/-- **No panic on in-contract operations**: along any run, the model of the repaired behaviour
+panics only on a `ConnectionClosed` (for a connection it does not know) or on a `Request` event
+whose id the handler already used. -/
+theorem panics_excused (dbg : Bool) (np : Nat) (ops : List Op) :
+    panicsOk [] (runT true np (init dbg) [] ops) = true := by
+  have := panics_run np ops (init dbg) [] Hs.empty (inv_init dbg)
+  simpa [Hs.empty] using this
+
+/-! ### the `is_pending_*` samples -/
+
+theorem mem_samplePo (np : Nat) (s : St) (p : Peer) (id : RId) :
+    (p, id) ∈ samplePo np s ↔ p < np ∧ 1 ≤ id ∧ id < s.nextId ∧ isPendingOut s p id = true := by
+  simp only [samplePo, List.mem_flatMap, List.mem_range, List.mem_map, List.mem_filter,
+    List.mem_range'_1, Prod.mk.injEq]
+  constructor
+  · rintro ⟨q, hq, i, ⟨hi, hpend⟩, rfl, rfl⟩
+    exact ⟨hq, hi.1, by omega, hpend⟩
+  · rintro ⟨hq, h1, h2, hpend⟩
+    exact ⟨p, hq, id, ⟨⟨h1, by omega⟩, hpend⟩, rfl, rfl⟩
+
+theorem mem_samplePi (np : Nat) (s : St) (ids : List RId) (p : Peer) (id : RId) :
+    (p, id) ∈ samplePi np s ids ↔ p < np ∧ id ∈ ids ∧ isPendingIn s p id = true := by
+  simp only [samplePi, List.mem_flatMap, List.mem_range, List.mem_map, List.mem_filter,
+    Prod.mk.injEq]
+  constructor
+  · rintro ⟨q, hq, i, ⟨hi, hpend⟩, rfl, rfl⟩
+    exact ⟨hq, hi, hpend⟩
+  · rintro ⟨hq, h1, hpend⟩
+    exact ⟨p, hq, id, ⟨h1, hpend⟩, rfl, rfl⟩
+
+theorem mem_insertSorted (x y : Nat) : ∀ l : List Nat, y ∈ insertSorted x l ↔ y = x ∨ y ∈ l
+  | [] => by simp [insertSorted]
+  | z :: zs => by
+    simp only [insertSorted]
+    split
+    · simp
+    · split
+      · rename_i hxz; subst hxz; simp
+      · simp only [List.mem_cons, mem_insertSorted x y zs]
+        constructor
+        · rintro (h | h | h)
+          · exact Or.inr (Or.inl h)
+          · exact Or.inl h
+          · exact Or.inr (Or.inr h)
+        · rintro (h | h | h)
+          · exact Or.inr (Or.inl h)
+          · exact Or.inl h
+          · exact Or.inr (Or.inr h)
+
+theorem mem_seenAfter (ids : List RId) (o : Op) (y : RId) :
+    y ∈ seenAfter ids o ↔ y ∈ ids ∨ y ∈ reqIdOf o := by
+  cases o <;> simp [seenAfter, reqIdOf, mem_insertSorted]
+  rename_i p c id
+  constructor <;> (rintro (h | h) <;> simp [h])
+
+theorem runT_last (np : Nat) : ∀ (ops : List Op) (s : St) (ids : List RId), ops ≠ [] →
+    ∃ e seen, (runT true np s ids ops).getLast? = some e ∧ e.po = samplePo np (finalSt s ops) ∧
+      e.pi = samplePi np (finalSt s ops) seen ∧
+      (∀ y, y ∈ seen ↔ y ∈ ids ∨ y ∈ reqIds (runT true np s ids ops)) := by
+  intro ops
+  induction ops with
+  | nil => intro s ids h; exact absurd rfl h
+  | cons o os ih =>
+    intro s ids _
+    cases os with
+    | nil =>
+      refine ⟨_, seenAfter ids o, rfl, rfl, rfl, ?_⟩
+      intro y; simp [runT, reqIds, mem_seenAfter]
+    | cons o' os' =>
+      obtain ⟨e, seen, h1, h2, h3, h4⟩ := ih (step true s o).1 (seenAfter ids o) (by simp)
+      refine ⟨e, seen, ?_, ?_, ?_, ?_⟩
+      · rw [runT]
+        rw [runT] at h1
+        simpa [List.getLast?_cons_cons] using h1
+      · simpa [finalSt] using h2
+      · simpa [finalSt] using h3
+      · intro y
+        rw [h4 y, mem_seenAfter]
+        conv => rhs; rw [runT]
+        simp only [reqIds, List.flatMap_cons, List.mem_append]
+        constructor
+        · rintro ((h | h) | h)
+          · exact Or.inl h
+          · exact Or.inr (Or.inl h)
+          · exact Or.inr (Or.inr h)
+        · rintro (h | h | h)
+          · exact Or.inl (Or.inl h)
+          · exact Or.inl (Or.inr h)
+          · exact Or.inr h
+
+section
+variable (dbg : Bool) (np : Nat) (ops : List Op)
+
+local notation "T" => runT true np (init dbg) [] ops
+local notation "S" => finalSt (init dbg) ops
+
+theorem lastPo_nil : lastPo (runT true np (init dbg) [] []) = [] := rfl
+
+/-- the observable partition clause, on the `is_pending_outbound` sample (`np` = number of
+sampled peers; the requests' peers must be among them) -/
+theorem partition_clause (hpeers : ∀ x ∈ issued T, x.2 < np) : clPartOut T ∧ clPendIssuedOut T := by
+  by_cases hops : ops = []
+  · subst hops; constructor
+    · intro x hx; simp [runT, issued] at hx
+    · intro x hx; simp [runT, lastPo] at hx
+  · obtain ⟨e, seen, h1, h2, _, _⟩ := runT_last np ops (init dbg) [] hops
+    have hl : lastPo T = samplePo np S := by simp [lastPo, h1, h2]
+    have f := facts dbg np ops
+    constructor
+    · intro x hx
+      obtain ⟨i, q⟩ := x
+      rw [hl, mem_samplePo, pending_iff dbg np ops q i]
+      have hi : i ∈ (issued T).map (·.1) := List.mem_map.2 ⟨_, hx, rfl⟩
+      rw [f.iss_eq, List.mem_range'_1] at hi
+      have := hpeers _ hx
+      have := f.next_pos
+      constructor
+      · rintro ⟨_, _, _, _, h⟩; exact h
+      · intro h; exact ⟨by assumption, hi.1, by omega, hx, h⟩
+    · intro x hx
+      obtain ⟨q, i⟩ := x
+      rw [hl, mem_samplePo, pending_iff dbg np ops q i] at hx
+      exact hx.2.2.2.1
+
+theorem partition_in_clause (hfresh : (reqIds T).Nodup) (hpeers : ∀ x ∈ delivered (Trace.evs T), x.2 < np) :
+    clPartIn T := by
+  by_cases hops : ops = []
+  · subst hops
+    intro x hx; simp [runT, Trace.evs, delivered] at hx
+  · obtain ⟨e, seen, h1, _, h3, h4⟩ := runT_last np ops (init dbg) [] hops
+    have hl : lastPi T = samplePi np S seen := by simp [lastPi, h1, h3]
+    have f := facts dbg np ops
+    intro x hx
+    obtain ⟨i, q⟩ := x
+    rw [hl, mem_samplePi, pending_in_iff dbg np ops hfresh q i, h4 i]
+    have hs : i ∈ reqIds T := (f.inb hfresh).2.2 _ hx
+    have := hpeers _ hx
+    constructor
+    · rintro ⟨_, _, _, h⟩; exact h
+    · intro h; exact ⟨by assumption, Or.inr hs, hx, h⟩
+
+/-- **The Spec accepts the model**: every trace of the model satisfies the executable property
+(so "implementation output = model output" implies "Spec holds on the implementation"). -/
+theorem spec_accepts_model (hp1 : ∀ x ∈ issued T, x.2 < np)
+    (hp2 : ∀ x ∈ delivered (Trace.evs T), x.2 < np) : spec T = true := by
+  have c1 := (ids_unique dbg np ops).2.2.2
+  have c2 := at_most_once dbg np ops
+  have c3 := outcome_issued dbg np ops
+  have c45 := partition_clause dbg np ops hp1
+  have c6 := quiescence_clause dbg np ops
+  have c11 := panics_excused dbg np ops
+  simp only [spec, specKey, c1, c2, c3, c45.1, c45.2, c6, c11, decide_true, Bool.not_true,
+    Bool.false_eq_true, if_false]
+  by_cases hfresh : (reqIds T).Nodup
+  · have c7 := at_most_once_in dbg np ops hfresh
+    have c8 := outcome_delivered_in dbg np ops hfresh
+    have c9 := partition_in_clause dbg np ops hfresh hp2
+    have c10 := quiescence_in_clause dbg np ops hfresh
+    simp [hfresh, c7, c8, c9, c10]
+  · simp [hfresh]
+
+end
+
+/-! ## The original code (finding `C45-late-handler-event`)
+
+`step false` is the behaviour before the repair: `debug_assert!(removed)` and then the event is
+emitted unconditionally. -/
+
+/-- the run of the original code: established, send, closed, then the handler's late `Response` -/
+def lateOps : List Op := [.established 0 1, .send 0, .closed 0 1, .hOut 0 1 1 .response]
+
+/-- release build of the ORIGINAL code: request 1 gets two outcomes
+(`OutboundFailure::ConnectionClosed`, then `Message::Response`) -/
+theorem late_handler_event_buggy_counterexample :
+    outDone (Trace.evs (runT false 1 (init false) [] lateOps)) = [(1, 0), (1, 0)] ∧
+    ¬ clOnceOut (runT false 1 (init false) [] lateOps) := by
+  constructor
+  · decide
+  · decide
+
+/-- debug build of the ORIGINAL code: the same run panics in `on_connection_handler_event` -/
+theorem late_handler_event_buggy_panics :
+    ((runT false 1 (init true) [] lateOps).map (·.out.panic)) =
+      [none, none, none, some "debug_assert removed"] := by decide
+
+/-- the repaired code ignores the late event -/
+theorem late_handler_event_fixed :
+    outDone (Trace.evs (runT true 1 (init true) [] lateOps)) = [(1, 0)] ∧
+    ((runT true 1 (init true) [] lateOps).map (·.out.panic)) = [none, none, none, none] := by
+  constructor <;> decide
+
+/-- Under the handler contract (a completion event only for an id that is pending on that
+connection) the original and the repaired code behave identically — so the theorems above hold
+for the original code on all in-contract runs. -/
+theorem original_agrees_in_contract (s : St) (o : Op)
+    (hout : ∀ p c id k, o = .hOut p c id k → (removeP true c id (s.connected p)).1 = true)
+    (hin : ∀ p c id k, o = .hIn p c id k → (removeP false c id (s.connected p)).1 = true) :
+    step false s o = step true s o := by
+  cases o with
+  | hOut p c id k => simp [step, hout p c id k rfl]
+  | hIn p c id k => simp [step, hin p c id k rfl]
+  | _ => rfl
+
 end C45
+
+#print axioms C45.inv_step
+#print axioms C45.ids_unique
+#print axioms C45.partition
+#print axioms C45.at_most_once
+#print axioms C45.outcome_issued
+#print axioms C45.pending_iff
+#print axioms C45.exactly_once_when_not_pending
+#print axioms C45.exactly_once_at_quiescence
+#print axioms C45.partition_in
+#print axioms C45.at_most_once_in
+#print axioms C45.pending_in_iff
+#print axioms C45.exactly_once_in_at_quiescence
+#print axioms C45.panics_excused
+#print axioms C45.spec_accepts_model
+#print axioms C45.late_handler_event_buggy_counterexample
+#print axioms C45.late_handler_event_buggy_panics
+#print axioms C45.late_handler_event_fixed
+#print axioms C45.original_agrees_in_contract
